@@ -400,6 +400,72 @@ def handdown(ctx, o, ps: PassShape, pt):
         o.refute(ps.f, ps.f.node, 'children recursion', "the pass never recurses into task.children")
 
 
+FUTURE_END = 'schedule.ForwardScheduler.__check_no_end_dates_in_future'
+
+
+class AsValidator:
+    """the future-end check when it was folded into calc (moved to a new helper that the normaliser splices): findings keep the
+    identity of the validator, locations are those of calc"""
+
+    def __init__(self, calc, loop, clocks, raise_):
+        self.calc, self.loop, self.clocks, self.raise_ = calc, loop, clocks, raise_
+        self.qual = FUTURE_END
+        self.name = '__check_no_end_dates_in_future'
+
+    def loc(self, node):
+        return self.calc.loc(node)
+
+
+def inlined_future_end_check(ctx, calc):
+    """`for t in <input>.tasks: if t.end is not None and t.end > <clock>: raise RuntimeError(..)` written in calc itself
+    (read-only scan of the input).  Returns AsValidator or None"""
+    prog = ctx.prog
+    inp = calc.params[1]
+    ex = Expander(prog, calc, ctx.typer)
+    cfg = cfg_of(calc)
+    for lp in [n for n in walk_no_nested(calc.node) if isinstance(n, ast.For)]:
+        it = sched.whole_seq(ex.expand(lp.iter, cfg.node_of(lp)))
+        if not match(f"{inp}.tasks", it) or not isinstance(lp.target, ast.Name):
+            continue
+        tv = lp.target.id
+        # read-only body: tests, raises, nothing else
+        if any(isinstance(x, (ast.Assign, ast.AugAssign, ast.AnnAssign, ast.Delete, ast.With, ast.Return)) for st in lp.body for x in ast.walk(st)):
+            continue
+        for r in [x for st in lp.body for x in ast.walk(st) if isinstance(x, ast.Raise)]:
+            if facts.exc_name(r) != 'RuntimeError':
+                continue
+            for t, p in facts.node_conditions(prog, calc, r, ctx.typer, expand=True):
+                if isinstance(t, ast.Compare) and len(t.ops) == 1 and p:
+                    l, op, rr = t.left, t.ops[0], t.comparators[0]
+                    if (match(f"{tv}.end", l) and isinstance(op, (ast.Gt, ast.GtE)) and _is_now(rr)) or \
+                            (match(f"{tv}.end", rr) and isinstance(op, (ast.Lt, ast.LtE)) and _is_now(l)):
+                        # the clock reads that feed this comparison
+                        clocks = []
+                        for cnd, _ in cfg.conditions(cfg.node_of(r)):
+                            for x in ast.walk(cnd):
+                                if _is_now(x):
+                                    clocks.append(x)
+                                elif isinstance(x, ast.Name):
+                                    for d in flow_of(calc).defs_of(x.id):
+                                        if d.kind == 'assign' and d.value is not None and _is_now(d.value):
+                                            clocks.append(d.value)
+                        return AsValidator(calc, lp, clocks, r)
+    return None
+
+
+def resolve_validator(ctx, S, qual):
+    """Func of a pre-flight validator, or AsValidator when the future-end check is written inside calc; AnchorMissing otherwise"""
+    prog = ctx.prog
+    f = prog.funcs.get(qual)
+    if f is not None:
+        return f
+    if qual == FUTURE_END:
+        av = inlined_future_end_check(ctx, prog.func(S['calc']))
+        if av is not None:
+            return av
+    return prog.func(qual)        # raises AnchorMissing
+
+
 def roots_and_preflight(ctx, o, S, validators):
     prog = ctx.prog
     calc = prog.func(S['calc'])
@@ -414,7 +480,13 @@ def roots_and_preflight(ctx, o, S, validators):
         return
     clone_node = cfg.node_containing(clones[0])
     for v in validators:
-        vf = prog.func(v)
+        vf = resolve_validator(ctx, S, v)
+        if isinstance(vf, AsValidator):
+            if cfg.dominates(cfg.node_of(vf.loop), clone_node):
+                o.site(calc, vf.loop, "future-end check (written in calc) dominates clone()")
+            else:
+                o.refute(calc, vf.loop, vf.name, "the future-end check does not run before the schedule is computed")
+            continue
         cs = [c for c in facts.calls_named(calc, vf.name)]
         good = [c for c in cs if c.args and isinstance(c.args[0], ast.Name) and c.args[0].id == inp
                 and cfg.dominates(cfg.node_containing(c), clone_node)]
